@@ -1,0 +1,107 @@
+//go:build verif
+// +build verif
+
+package jmespath
+
+// Read-only views used by the verification machinery in /verif.
+// This file is only compiled with the "verif" build tag; it adds no
+// behaviour to the library.
+
+import (
+	"encoding/json"
+	"fmt"
+	"strconv"
+	"strings"
+)
+
+// VerifToken is an exported copy of a lexer token.
+type VerifToken struct {
+	Type     string
+	Value    string
+	Position int
+	Length   int
+}
+
+// VerifTokens runs the real lexer on expression.
+func VerifTokens(expression string) ([]VerifToken, error) {
+	tokens, err := NewLexer().tokenize(expression)
+	out := make([]VerifToken, 0, len(tokens))
+	for _, t := range tokens {
+		out = append(out, VerifToken{t.tokenType.String(), t.value, t.position, t.length})
+	}
+	return out, err
+}
+
+// VerifAST returns the AST held by a compiled expression.
+func VerifAST(jp *JMESPath) ASTNode {
+	return jp.ast
+}
+
+// VerifRenderAST renders an AST as a canonical s-expression: node type,
+// value (slice bounds, comparator, literal JSON, names) and children.
+func VerifRenderAST(node ASTNode) string {
+	var b strings.Builder
+	verifRender(&b, node)
+	return b.String()
+}
+
+func verifRender(b *strings.Builder, node ASTNode) {
+	b.WriteByte('(')
+	b.WriteString(strings.TrimPrefix(node.nodeType.String(), "AST"))
+	switch v := node.value.(type) {
+	case nil:
+	case tokType:
+		b.WriteByte(' ')
+		b.WriteString(v.String())
+	case string:
+		b.WriteByte(' ')
+		if node.nodeType == ASTLiteral {
+			b.WriteString("json:")
+		}
+		b.WriteString(strconv.Quote(v))
+	case int:
+		b.WriteByte(' ')
+		b.WriteString(strconv.Itoa(v))
+	case []*int:
+		b.WriteByte(' ')
+		for i, p := range v {
+			if i > 0 {
+				b.WriteByte(':')
+			}
+			if p == nil {
+				b.WriteByte('_')
+			} else {
+				b.WriteString(strconv.Itoa(*p))
+			}
+		}
+	default:
+		b.WriteByte(' ')
+		if node.nodeType == ASTLiteral {
+			if js, err := json.Marshal(v); err == nil {
+				b.WriteString("json:")
+				b.Write(js)
+				break
+			}
+		}
+		fmt.Fprintf(b, "go:%T:%v", v, v)
+	}
+	for _, c := range node.children {
+		b.WriteByte(' ')
+		verifRender(b, c)
+	}
+	b.WriteByte(')')
+}
+
+// VerifParserState renders the private state of a Parser.
+func VerifParserState(p *Parser) string {
+	var b strings.Builder
+	fmt.Fprintf(&b, "expr=%q index=%d tokens=[", p.expression, p.index)
+	for i, t := range p.tokens {
+		if i > 0 {
+			b.WriteByte(' ')
+		}
+		fmt.Fprintf(&b, "%s:%q@%d+%d", t.tokenType, t.value, t.position, t.length)
+	}
+	b.WriteByte(']')
+	return b.String()
+}
